@@ -379,6 +379,19 @@ def check(index, ctx):
     if n_bad == 0 and n_unk == 0:
         ctx.ok("R2", f"nested terms: {n_terms} terms of depth <= 2 (5 Select leaves, empty conjunction)", "constructors accept exactly the well-formed terms and declare the documented keys", Conj.loc())
     ctx.floor("nested transform terms enumerated", n_terms, 300)
+    # ------------------------------------------------------------------------------------------------ R7 one-shot key collections
+    ctx.rule("R7", "a transform constructor (or helper) that receives its keys as an Iterable materialises them before any other traversal: a check that walks a one-shot iterable "
+                   "leaves nothing for the assignment that follows, so the declared keys would not be the ones passed")
+    from .C01 import single_pass_rule
+
+    n_iter = 0
+    TERMS = ("Init", "Select", "Diagonalize", "Stack", "Conjunction", "Composition", "Accumulate")  # the transforms the property quantifies over
+    for fi_ in index.all_functions(T):
+        if fi_.parent is None and fi_.cls is not None and fi_.cls.name in TERMS and fi_.name == "__init__" \
+                and any("Iterable" in (ast.unparse(a_.annotation) if a_.annotation is not None else "") for a_ in fi_.node.args.args):
+            n_iter += 1
+            single_pass_rule(ctx, index, "R7", fi_)
+    ctx.floor("constructors of the quantified transforms with Iterable parameters", n_iter, 3)
     # ------------------------------------------------------------------------------------------------ R4
     dict_types = [c for c in index.classes.values() if td in c.mro]
     lca = index.find_function(f"{T}.tensor_dict._least_common_ancestor")
@@ -403,6 +416,19 @@ def check(index, ctx):
     if un is not None:
         uses = any(isinstance(n, ast.Name) and n.id == lca.name and isinstance(n.ctx, ast.Load) for n in ast.walk(un.node))  # called directly or folded with reduce()
         ctx.require(uses, "R4", "_union folds _least_common_ancestor over the member types", "uses the helper", "_union does not determine its result type with _least_common_ancestor", un.loc(), nontrivial=False)
+        # ... over ALL members: an empty dictionary contributes no item but it does contribute its type
+        par = un.node.args.args[0].arg if un.node.args.args else None
+        srcs = [n.iter for n in ast.walk(un.node) if isinstance(n, (ast.For, ast.comprehension))] + \
+               [a_ for c_ in ast.walk(un.node) if isinstance(c_, ast.Call) and norm_text(c_.func) in ("map", "reduce", "functools.reduce") for a_ in c_.args[1:]]
+        srcs = [s_ for s_ in srcs if par in {x.id for x in ast.walk(s_) if isinstance(x, ast.Name)}]
+        filtered = [s_ for s_ in srcs if any(isinstance(x, ast.Call) and norm_text(x.func) in ("filter", "itertools.compress", "compress", "itertools.filterfalse") for x in ast.walk(s_))
+                    or any(isinstance(x, ast.comprehension) and x.ifs for x in ast.walk(s_))]
+        filtered += [c_ for c_ in ast.walk(un.node) if isinstance(c_, (ast.ListComp, ast.GeneratorExp, ast.SetComp)) and any(g.ifs and par in {x.id for x in ast.walk(g.iter) if isinstance(x, ast.Name)} for g in c_.generators)]
+        skips = [n for n in ast.walk(un.node) if isinstance(n, ast.For) and par in {x.id for x in ast.walk(n.iter) if isinstance(x, ast.Name)} and any(isinstance(x, ast.Continue) for x in ast.walk(n))]
+        bad_ = (filtered or skips or [un.node])[0]
+        ctx.require(not filtered and not skips, "R4", "_union: every member takes part in the result type", "the members are walked unfiltered",
+                    f"`{norm_text(bad_)[:80]}` leaves some members out (e.g. the empty ones): their dictionary type no longer enters the least common ancestor, so the result can be "
+                    "more specific than a part", un.loc(bad_) if (filtered or skips) else un.loc(), nontrivial=False)
     # ------------------------------------------------------------------------------------------------ R5
     for mname in MUTATORS:
         target = td.aliases.get(mname)
